@@ -312,6 +312,7 @@ func buildGuest(moduleName string) []byte {
 	f6 := m.ImportFunc(w, "fd_prestat_dir_name", []byte{i32, i32, i32}, []byte{i32})
 	f7 := m.ImportFunc(w, "path_create_directory", []byte{i32, i32, i32}, []byte{i32})
 	f8 := m.ImportFunc(w, "path_remove_directory", []byte{i32, i32, i32}, []byte{i32})
+	f9 := m.ImportFunc(w, "fd_fdstat_get", []byte{i32, i32}, []byte{i32}) // file type of a descriptor: counts pre-opened sockets
 	// probe: a host function that evaluates the immutability invariant WHILE the instantiation is in progress
 	// (called by every start function); a configuration changed for the duration of the call only is caught here.
 	probe := m.ImportFunc("c19host", "probe", nil, nil)
@@ -326,6 +327,7 @@ func buildGuest(moduleName string) []byte {
 	wrap2("environ_sizes_get", f3)
 	wrap2("environ_get", f4)
 	wrap2("fd_prestat_get", f5)
+	wrap2("fd_fdstat_get", f9)
 	idx := m.AddFunc([]byte{i32, i32, i32}, []byte{i32}, nil, (&wb.Asm{}).LocalGet(0).LocalGet(1).LocalGet(2).Call(f6).B)
 	m.ExportFunc("fd_prestat_dir_name", idx)
 	for nm, f := range map[string]uint32{"path_create_directory": f7, "path_remove_directory": f8} {
@@ -352,11 +354,15 @@ type guestRT struct {
 	id        int64                 // distinguishes the probe directory names of concurrently running workers
 	cur       *world                // the world whose configurations the in-flight probe checks
 	during    []string              // invariant failures seen by the probe while an instantiation was in progress
+	probeFn   func()                // sockuse family: its own in-flight invariant (set only while it instantiates)
 }
 
 // probe runs inside InstantiateModule (from the guest's start function): every configuration of the current world
 // must look exactly as it did when it was created, also while it is being used.
 func (g *guestRT) probe() {
+	if g.probeFn != nil {
+		g.probeFn()
+	}
 	w := g.cur
 	if w == nil {
 		return
@@ -1048,9 +1054,10 @@ func replay(path string) {
 	var doc struct {
 		Signature string `json:"signature"`
 		Replay    struct {
-			Kind    string `json:"kind"`
-			Path    []step `json:"path"`
-			Parents []int  `json:"parents"`
+			Kind    string  `json:"kind"`
+			Path    []step  `json:"path"`
+			Parents []int   `json:"parents"`
+			Steps   []sstep `json:"steps"`
 		} `json:"replay"`
 	}
 	if err := json.Unmarshal(b, &doc); err != nil {
@@ -1064,7 +1071,10 @@ func replay(path string) {
 	outcomes := fw.NewCounter()
 	fmt.Printf("replaying %s: kind=%s path=%v parents=%v\n", doc.Signature, doc.Replay.Kind, doc.Replay.Path, doc.Replay.Parents)
 	var trans int64
-	if doc.Replay.Kind == "sock" {
+	if doc.Replay.Kind == "sockuse" {
+		fmt.Printf("history: %v\n", doc.Replay.Steps)
+		trans = replaySockUse(run, doc.Replay.Steps, outcomes)
+	} else if doc.Replay.Kind == "sock" {
 		// the recorded receivers select one branch; the enumeration below visits it (and its siblings)
 		_, trans = sockTrees(run, len(doc.Replay.Parents), outcomes)
 	} else {
@@ -1135,6 +1145,12 @@ func main() {
 	if run.Thorough() {
 		passes = []string{"module", "fs", "fs+unmount", "runtime"}
 	}
+	// development aid: `scripts/check.sh c19 quick sockuse` runs only the sockuse family (use with VERIF_PATCHES so
+	// that the real evidence is not overwritten)
+	onlySockUse := len(os.Args) > 2 && os.Args[2] == "sockuse"
+	if onlySockUse {
+		passes = nil
+	}
 	for _, label := range passes {
 		kind := strings.TrimSuffix(label, "+unmount")
 		e := &explorer{run: run, kind: kind, depth: depths[kind], observeLeaves: true, outcomes: outcomes, samples: samples}
@@ -1181,6 +1197,17 @@ func main() {
 	states += ss
 	trans += st
 	bounds["sock"] = map[string]any{"derivations": sockN, "states": ss, "transitions": st, "trees": "every choice of receiver per derivation (N! trees)"}
+	// sockuse: the context a configuration is registered in is a dimension of its own (see sockuse.go)
+	su := &sockUse{run: run, depth: 6, outcomes: outcomes, samples: samples}
+	if run.Thorough() {
+		su.depth = 7
+	}
+	t0su := time.Now()
+	su.explore()
+	states += su.states.Load()
+	trans += su.trans.Load()
+	bounds["sockuse"] = map[string]any{"depth": su.depth, "states": su.states.Load(), "transitions": su.trans.Load(), "instantiations": su.insts.Load(), "wall_s": time.Since(t0su).Seconds(),
+		"alphabet": "WithTCPListener(any cfg) | WithConfig(any ctx, any cfg) | WithValue(any ctx) | Instantiate(any ctx); context 0 = Background, configuration 0 = empty"}
 	bounds["combs"] = "module and fs: chains of 0..9 (thorough 0..17) fresh-element derivations with two siblings from every chain node, in two orders"
 	om := outcomes.Map()
 	// compress observation outcomes into a count
@@ -1195,6 +1222,10 @@ func main() {
 		}
 	}
 	comp["distinct_guest_observations"] = distinctObs
+	if onlySockUse {
+		b, _ := json.MarshalIndent(map[string]any{"bounds": bounds["sockuse"], "outcomes": comp}, "", " ")
+		fmt.Println(string(b))
+	}
 	os.RemoveAll(hostA) // Finish exits the process, so deferred removals would not run
 	os.RemoveAll(hostB)
 	run.Finish(fw.Coverage{
